@@ -500,4 +500,41 @@ theorem gen_int32_valid (n : Nat) :
   rw [intJson_int32 (fun _ => [])]
   exact C10.int32_valid _ .int32 rfl n
 
+/-! ### `UAString.xml_encode` / `json_encode`, `UALocalizedText.xml_encode`: generated = hand model -/
+
+theorem tString_eq : tString = ['S', 't', 'r', 'i', 'n', 'g'] := by decide
+theorem tLT_eq : tLT = ['L', 'o', 'c', 'a', 'l', 'i', 'z', 'e', 'd', 'T', 'e', 'x', 't'] := by decide
+theorem tLoc_eq : tLoc = ['L', 'o', 'c', 'a', 'l', 'e'] := by decide
+theorem tText_eq : tText = ['T', 'e', 'x', 't'] := by decide
+
+theorem strXml_eq (v : Option Str) (b : Bool) : Gen.str_xml_encode ⟨v⟩ b = .ok (encodeText (.str v) b) := by
+  have he : encodeText (.str v) b = wrap tString b (Xml.escText (optS v)) := by simp only [encodeText]
+  rw [he]
+  unfold Gen.str_xml_encode wrap
+  rw [tString_eq]
+  cases b <;> cases v <;> first | rw [xmlns_false] | rw [xmlns_eq]
+  all_goals simp [bindE, optS, pyXmlEscape, pyFormat, PyFormat.fmt, Xml.escText]
+
+/-- `UAGuid` inherits `UAString.xml_encode`: the same generated definition is the model's Guid encoder -/
+theorem guidXml_eq (v : Option Str) (b : Bool) : Gen.str_xml_encode ⟨v⟩ b = .ok (encodeText (.guid v) b) := by
+  rw [strXml_eq]
+  simp only [encodeText]
+
+theorem strJson_eq (fs : Int → Str) (v : Option Str) : Gen.str_json_encode ⟨v⟩ = jsonEncode fs (.str v) := by
+  rw [jsonEncode]
+  cases v <;> simp [Gen.str_json_encode, pyJsonDumps]
+
+theorem locTextXml_eq (t l : Option Str) (b : Bool) : Gen.loctext_xml_encode ⟨t, l⟩ b = .ok (encodeText (.locText t l) b) := by
+  have he : encodeText (.locText t l) b = wrap tLT b (wrap tLoc false (optS l) ++ wrap tText false (Xml.escText (optS t))) := by
+    simp only [encodeText]
+  rw [he]
+  unfold Gen.loctext_xml_encode wrap
+  rw [tLT_eq, tLoc_eq, tText_eq, xmlns_false]
+  cases b <;> cases t <;> cases l <;> first | rw [xmlns_false] | rw [xmlns_eq]
+  all_goals simp [bindE, optS, pyXmlEscape, Xml.escText]
+
+/-- C10's `string_valid` restated for the generated encoder -/
+theorem gen_string_json (s : Str) : Gen.str_json_encode ⟨some s⟩ = .ok (some (pyJsonQuote s)) := by
+  simp [Gen.str_json_encode, pyJsonDumps]
+
 end Opcua.Tie
